@@ -406,6 +406,14 @@ class SSqrt:
     def __neg__(s):
         return -s._f()
 
+    def __pow__(s, k):
+        if k == 2:
+            return s.arg
+        return s._f() ** k
+
+    def __abs__(s):
+        return s
+
 
 def _re_im(o):
     if isinstance(o, SC):
@@ -463,6 +471,10 @@ class SC:
     def conjugate(s):
         return SC(s.re, -s.im)
     conj = conjugate
+
+    def __abs__(s):
+        r2 = s.re * s.re + s.im * s.im
+        return SSqrt(r2) if isinstance(r2, SR) else float(np.sqrt(r2))
 
     @property
     def real(s):
@@ -921,6 +933,16 @@ class NPProxy:
 
     def dot(s, a, b):
         return np.dot(a, b)
+
+    def diag(s, v, k=0):
+        if is_symarr(v) and np.ndim(v) == 1 and k == 0:
+            n = len(v); r = _zeros((n, n), getattr(v, 'ckind', 'f'))
+            for i in range(n):
+                r[i, i] = v[i]
+            return r
+        if is_symarr(v) and np.ndim(v) == 2 and k == 0:
+            return symarray([v[i, i] for i in range(min(v.shape))])
+        return np.diag(v, k)
 
 
 @contextlib.contextmanager
